@@ -25,6 +25,11 @@ type pair struct {
 	// "inc" `r++;`, "dec" `r--;`, "add" `r += n;`, "self" `r = r + n;`. A styled pair only
 	// takes the sequences that write through a reference (the others are covered unstyled).
 	wstyle string
+	// ustyle: every use of a reference (read or write through it) sits inside a control
+	// construct that executes it exactly once: "if", "else", "elseif" (second arm of a chain),
+	// "chain-else" (trailing else of an else-if chain), "while", "for", "match". The loan must
+	// stay alive up to that use wherever it is written.
+	ustyle string
 }
 
 const prelude = `import "std/io";
@@ -53,28 +58,67 @@ func allPairs() []pair {
 	iS := map[string]int64{"s.A": 1, "s.B": 2}
 	iA := map[string]int64{"a0": 1, "a1": 2}
 	return []pair{
-		{"same-var", letX, map[string]int64{"x": 1}, [2]place{x, x}, ""},
-		{"disjoint-fields", letS, iS, [2]place{sA, sB}, ""},
-		{"parent-child", letS, iS, [2]place{s, sA}, ""},
-		{"same-field", letS, iS, [2]place{sA, sA}, ""},
-		{"same-index", letA, iA, [2]place{a0, a0}, ""},
-		{"diff-index", letA, iA, [2]place{a0, a1}, ""},
-		{"elem-field", letE, map[string]int64{"e0x": 1}, [2]place{e0x, e0x}, ""},
-		{"child-parent", letS, iS, [2]place{sA, s}, ""},
+		{"same-var", letX, map[string]int64{"x": 1}, [2]place{x, x}, "", ""},
+		{"disjoint-fields", letS, iS, [2]place{sA, sB}, "", ""},
+		{"parent-child", letS, iS, [2]place{s, sA}, "", ""},
+		{"same-field", letS, iS, [2]place{sA, sA}, "", ""},
+		{"same-index", letA, iA, [2]place{a0, a0}, "", ""},
+		{"diff-index", letA, iA, [2]place{a0, a1}, "", ""},
+		{"elem-field", letE, map[string]int64{"e0x": 1}, [2]place{e0x, e0x}, "", ""},
+		{"child-parent", letS, iS, [2]place{sA, s}, "", ""},
 		// the same places with the other spellings of a write through a reference
-		{"same-var/inc", letX, map[string]int64{"x": 1}, [2]place{x, x}, "inc"},
-		{"same-var/dec", letX, map[string]int64{"x": 1}, [2]place{x, x}, "dec"},
-		{"same-var/add", letX, map[string]int64{"x": 1}, [2]place{x, x}, "add"},
-		{"same-var/self", letX, map[string]int64{"x": 1}, [2]place{x, x}, "self"},
-		{"disjoint-fields/inc", letS, iS, [2]place{sA, sB}, "inc"},
-		{"disjoint-fields/add", letS, iS, [2]place{sA, sB}, "add"},
-		{"elem-field/inc", letE, map[string]int64{"e0x": 1}, [2]place{e0x, e0x}, "inc"},
-		{"same-index/dec", letA, iA, [2]place{a0, a0}, "dec"},
+		{"same-var/inc", letX, map[string]int64{"x": 1}, [2]place{x, x}, "inc", ""},
+		{"same-var/dec", letX, map[string]int64{"x": 1}, [2]place{x, x}, "dec", ""},
+		{"same-var/add", letX, map[string]int64{"x": 1}, [2]place{x, x}, "add", ""},
+		{"same-var/self", letX, map[string]int64{"x": 1}, [2]place{x, x}, "self", ""},
+		{"disjoint-fields/inc", letS, iS, [2]place{sA, sB}, "inc", ""},
+		{"disjoint-fields/add", letS, iS, [2]place{sA, sB}, "add", ""},
+		{"elem-field/inc", letE, map[string]int64{"e0x": 1}, [2]place{e0x, e0x}, "inc", ""},
+		{"same-index/dec", letA, iA, [2]place{a0, a0}, "dec", ""},
+		// uses of the references inside control constructs
+		{"same-var/in-if", letX + " let t: i32 = 1;", map[string]int64{"x": 1}, [2]place{x, x}, "", "if"},
+		{"same-var/in-else", letX + " let t: i32 = 1;", map[string]int64{"x": 1}, [2]place{x, x}, "", "else"},
+		{"same-var/in-elseif", letX + " let t: i32 = 1;", map[string]int64{"x": 1}, [2]place{x, x}, "", "elseif"},
+		{"same-var/in-chain-else", letX + " let t: i32 = 1;", map[string]int64{"x": 1}, [2]place{x, x}, "", "chain-else"},
+		{"same-var/in-while", letX + " let t: i32 = 1;", map[string]int64{"x": 1}, [2]place{x, x}, "", "while"},
+		{"same-var/in-for", letX + " let t: i32 = 1;", map[string]int64{"x": 1}, [2]place{x, x}, "", "for"},
+		{"same-var/in-match", letX + " let t: i32 = 1;", map[string]int64{"x": 1}, [2]place{x, x}, "", "match"},
+		{"same-field/in-elseif", letS + " let t: i32 = 1;", iS, [2]place{sA, sA}, "", "elseif"},
+		{"parent-child/in-match", letS + " let t: i32 = 1;", iS, [2]place{s, sA}, "", "match"},
 	}
+}
+
+// wrapUse puts the statement(s) of a use inside the pair's control construct (executed once).
+func (p pair) wrapUse(l string, j int) string {
+	switch p.ustyle {
+	case "if":
+		return "if t > 0 { " + l + " }"
+	case "else":
+		return "if t > 5 { } else { " + l + " }"
+	case "elseif":
+		return "if t > 5 { } else if t > 0 { " + l + " } else { }"
+	case "chain-else":
+		return "if t > 5 { } else if t > 3 { } else { " + l + " }"
+	case "while":
+		return fmt.Sprintf("let w%d: i32 = 0; while w%d < t { w%d = w%d + 1; %s }", j, j, j, j, l)
+	case "for":
+		return fmt.Sprintf("for k%d in 0..t { %s }", j, l)
+	case "match":
+		return "match t { 1 => { " + l + " } _ => { } }"
+	}
+	return l
 }
 
 // takes: does pair p explore sequence s?
 func (p pair) takes(s seq) bool {
+	if p.ustyle != "" {
+		for _, e := range s {
+			if e.isUse() {
+				return true
+			}
+		}
+		return false
+	}
 	if p.wstyle == "" {
 		return true
 	}
@@ -175,6 +219,9 @@ func body(p pair, s seq) []string {
 				} else {
 					l = fmt.Sprintf("poke(&'%s);", pl.expr)
 				}
+			}
+			if e.isUse() && p.ustyle != "" {
+				l = p.wrapUse(l, j)
 			}
 		} else if e == Open {
 			l = "{"
